@@ -12,6 +12,7 @@ CONSTANTS MaxTerms, MaxFetch, Writers, CacheModes, SharedOpts, ShapeSet
 ShapesQuick == {<< <<1, 2, 3>>, <<2, 1>> >>}
 ShapesTiny == {<< <<1, 2>>, <<3>> >>}
 ShapesMid == {<< <<1, 2, 3>>, <<2>> >>}
+ShapesOne3 == {<< <<2, 3, 1>> >>}
 Lens == {1, 2, 3}
 XShapes == UNION {[1..n -> Lens] : n \in 1..3}
 ShapesAll == {<<a>> : a \in XShapes} \cup {<<a, b>> : a \in XShapes, b \in XShapes}
